@@ -57,6 +57,10 @@ def fused(maxdev=2):
             'OC1=CC=NC=C1', 'NC1=NC=NC2=C1N=CN2', 'O=C1NC(=O)C=CN1', 'CN1C=NC2=C1C(=O)N(C)C(=O)N2C', 'C1=C[CH-]C=C1', 'C1=CC=C[CH+]C=C1', 'C1=CC=CC=CC=C1',
             'C1=CC1', 'C1=CC=C1', 'C1=CC=C2C=CC=CC2=C1.C1=CC=NC=C1', '[O-]C1=CC=CC=C1', 'C1=CC=[N+]([O-])C=C1', 'CC1=CC=C(C=C1)S(=O)(=O)N', 'C1=CB=CC=C1',
             'C1=CC=C2C(=C1)C1=CC=CC=C1C1=CC=CC=C21', 'C1=CC2=CC=C3C=CC=C4C=CC(=C1)C2=C34', 'C1=CC2=C3C(=C1)C=CC1=CC=CC(C=C2)=C31']
+    # azolide anions (ring N- next to other ring nitrogens), ring radicals
+    out += ['C1=C[N-]C=N1', 'C=1N=C[N-]N=1', 'C1=NN=N[N-]1', '[N-]1N=CC=C1', 'C1=CC=C2[N-]C=NC2=C1', 'C1=CC=C2[N-]N=NC2=C1', 'C1=NC=C2N=C[N-]C2=N1', 'CC1=NN=N[N-]1',
+            'C1=CC=C(C=C1)C1=NN=N[N-]1', 'C1=CC=CC=[C]1 |^1:5|', 'CC1=CC=C[C]=C1 |^1:5|', 'C1=CC=C2C=CC=[C]C2=C1 |^1:7|', 'C1=CC=N[C]=C1 |^1:4|', 'C1=C[C]=CN1 |^1:2|',
+            'C1=CC=C(C=C1)[N]C1=CC=CC=C1 |^1:6|', 'C1=CC=C(C=C1)[O] |^1:6|']
     return out
 
 
